@@ -14,7 +14,7 @@ from oracles import json_parse as jp
 def sbytes(run,name,n,ascii_only=True):
     bs=[z3.BitVec('%s_%d'%(name,i),8) for i in range(n)]
     for b in bs:
-        if ascii_only: run.solver.add(z3.ULT(b,0x80))
+        if ascii_only: run.add(z3.ULT(b,0x80))
     return bs
 
 class Canon(Obligation):
@@ -40,14 +40,14 @@ class Canon(Obligation):
             return jstr(mk_string(c)),False
         if k==2: return jnum('PosInt',Int(64,False,z3.BitVec('u',64))),False
         if k==3:
-            i=z3.BitVec('i',64); run.solver.add(i<0); return jnum('NegInt',Int(64,True,i)),False
+            i=z3.BitVec('i',64); run.add(i<0); return jnum('NegInt',Int(64,True,i)),False
         if k==4: return jnum('Float',Opaque('f64')),True
         if k==5: return jbool(Bool(z3.Bool('b'))),False
         if k==6: return jnull(),False
         if k==7: return jarr([jstr(S('e',1)),jnum('PosInt',Int(64,False,z3.BitVec('u',64)))]),False
         if k==8: return [jarr([]),jobj([])][run.pick(2,'empty')],False
         if k==9:
-            k1=sbytes(run,'k1',1); k2=sbytes(run,'k2',1); run.solver.add(k1[0]!=k2[0])
+            k1=sbytes(run,'k1',1); k2=sbytes(run,'k2',1); run.add(k1[0]!=k2[0])
             return jobj([(StringO(k1),jnull()),(StringO(k2),jbool(Bool(z3.Bool('b'))))]),False
         if k==10: return jobj([('b',jstr('x')),('a',jarr([jnum('Float',Opaque('f64'))]))]),True
         if k==11: return jobj([(S('k'),jobj([('x',jstr(S('v',1)))]))]),False
